@@ -306,8 +306,8 @@ def exCfg : SCfg where
   tmo := defaultTimeouts
   skew := 500
 
-def exPv (r : Nat) (b : Bid) (v : Nat) : Msg := .vote ⟨.prevote, r, b, v, true⟩
-def exPc (r : Nat) (b : Bid) (v : Nat) : Msg := .vote ⟨.precommit, r, b, v, true⟩
+def exPv (r : Nat) (b : Bid) (v : Nat) : Msg := .vote ⟨.prevote, r, b, v, true, v, v⟩
+def exPc (r : Nat) (b : Bid) (v : Nat) : Msg := .vote ⟨.precommit, r, b, v, true, v, v⟩
 
 /-- the prefix of corpus/C03/commit-seen-then-round-skip.ops (positions: validator 0 ↦ 0, 2 ↦ 1,
 3 ↦ 2): validator 0 proposes block 0 in round 0; validators 0 and 3 get it, validator 2 does not
@@ -416,7 +416,7 @@ def exBehind : NodeState :=
 /-- … and with that prevote recorded: the hypotheses of `round_skip_on_prevotes` hold (not halted,
 in round 0 < 1, +2/3-any prevotes of round 1) -/
 def exBehind' : NodeState :=
-  { exBehind with votes := (exBehind.votes.addVote (nodeCfg exCfg.cfg 2) ⟨.prevote, 1, some 0, 1, true⟩ 2).1 }
+  { exBehind with votes := (exBehind.votes.addVote (nodeCfg exCfg.cfg 2) ⟨.prevote, 1, some 0, 1, true, 1, 1⟩ 2).1 }
 
 example : exBehind'.halted = false ∧ exBehind'.round < 1 ∧
     hasAnyOf (nodeCfg exCfg.cfg 2) (exBehind'.votes.prevotes 1) = true := by decide +kernel
